@@ -173,13 +173,39 @@ class Check:
 _WORKER_FN = None
 
 
+def library_frame(exc):
+    """innermost traceback frame inside the code under test (gpytorch in the repository, or linear_operator), if any"""
+    repo = os.environ.get("VERIF_REPO", "/repo")
+    hit = None
+    for f in traceback.extract_tb(exc.__traceback__):
+        if f.filename.startswith(repo + "/gpytorch") or "/linear_operator/" in f.filename:
+            hit = f
+    return hit
+
+
 def _call(arg):
     try:
         return _WORKER_FN(arg)
     except Machinery as e:
         return [dict(machinery=str(e))]
-    except Exception:
+    except Exception as e:
+        fr = library_frame(e)
+        if fr is not None:
+            # the implementation raised where the harness (which passes on the unchanged tree) expects it to work:
+            # a conformance failure of the case being replayed, not a harness failure
+            where = "%s:%s" % (os.path.basename(fr.filename), fr.name)
+            return [dict(key=["library-raised", where, str(arg)[:200]], ok=False, nontrivial=True, sig="library-raised/%s/%s" % (where, type(e).__name__),
+                         detail="the library raised %s: %s (at %s line %d) while the harness was preparing or running %s" % (
+                             type(e).__name__, str(e)[:300], fr.filename, fr.lineno, str(arg)[:200]), case=dict(arg=arg if _jsonable(arg) else str(arg)[:2000]))]
         return [dict(machinery="worker crashed on %r:\n%s" % (str(arg)[:300], traceback.format_exc()))]
+
+
+def _jsonable(x):
+    try:
+        json.dumps(x)
+        return True
+    except (TypeError, ValueError):
+        return False
 
 
 def pmap(fn, items, procs=None, chunksize=None):
